@@ -460,4 +460,78 @@ def randomWrapped {α δ κ σ β : Type} [DecidableEq δ] (E : Env α δ) (P : 
     args kwKey kwSeed kwargs
 
 
+
+/-! ### block arrays inside other pytrees: jax's flatten / unflatten recursion -/
+
+section pytrees
+variable {α δ : Type}
+
+/-- a pytree over leaves `α`: a leaf, a standard container of sub-trees, or a block array (its blocks
+    are leaves: arrays, tracers, or the placeholder objects of a transformation) -/
+inductive PT (α : Type) where
+  | leaf : α → PT α
+  | tup : List (PT α) → PT α
+  | blk : List α → PT α
+
+mutual
+/-- `jax.tree_util.tree_leaves` -/
+def PT.leaves : PT α → List α
+  | .leaf a => [a]
+  | .tup cs => leavesL cs
+  | .blk bs => bs
+def leavesL : List (PT α) → List α
+  | [] => []
+  | c :: cs => c.leaves ++ leavesL cs
+end
+
+mutual
+/-- `jax.tree_util.tree_structure`: the tree with its leaves forgotten (a block array node keeps its
+    number of blocks) -/
+def PT.struct : PT α → PT Unit
+  | .leaf _ => .leaf ()
+  | .tup cs => .tup (structL cs)
+  | .blk bs => .blk (bs.map (fun _ => ()))
+def structL : List (PT α) → List (PT Unit)
+  | [] => []
+  | c :: cs => c.struct :: structL cs
+end
+
+mutual
+/-- `jax.tree_util.tree_unflatten(treedef, leaves)`: consumes the leaves left to right; standard
+    containers are rebuilt as they are, a block array node calls the registered `unflatten` -/
+def unflat [DecidableEq δ] (E : Env α δ) : PT Unit → List α → Res (PT α × List α)
+  | .leaf _, l =>
+    match l with
+    | [] => .error .value
+    | a :: r => .ok (.leaf a, r)
+  | .tup cs, l =>
+    match unflatL E cs l with
+    | .error e => .error e
+    | .ok (ts, r) => .ok (.tup ts, r)
+  | .blk us, l =>
+    if l.length < us.length then .error .value
+    else
+      match treeUnflatten E () (l.take us.length) with
+      | .error e => .error e
+      | .ok b => .ok (.blk b, l.drop us.length)
+def unflatL [DecidableEq δ] (E : Env α δ) : List (PT Unit) → List α → Res (List (PT α) × List α)
+  | [], l => .ok ([], l)
+  | c :: cs, l =>
+    match unflat E c l with
+    | .error e => .error e
+    | .ok (t, r) =>
+      match unflatL E cs r with
+      | .error e => .error e
+      | .ok (ts, r') => .ok (t :: ts, r')
+end
+
+/-- `jax.tree_util.tree_unflatten(treedef, leaves)` at top level: left-over leaves are an error -/
+def treeUnflattenTop [DecidableEq δ] (E : Env α δ) (s : PT Unit) (l : List α) : Res (PT α) :=
+  match unflat E s l with
+  | .error e => .error e
+  | .ok (t, []) => .ok t
+  | .ok (_, _ :: _) => .error .value
+
+end pytrees
+
 end Scico.Block
